@@ -12,6 +12,8 @@ T-SIBLING  every network-to-network branch of to_hypergraph / to_dihypergraph / 
            edges (with IDs) and the network attributes.
 T-NPID     no label reaches a network-building call after a detour through a NumPy array built from the labels
            (np.array([0, "b"]) is an array of strings: mixed int/str labels come back as strings).
+T-FLOW     every parameter of every converter can influence what the converter returns or builds (a label list that is
+           only length-checked, a type that is never applied, a flag that selects nothing is a dropped part of the input).
 T-ROLE     from_bipartite_graph decides which endpoint of a graph edge is the hyperedge by membership in the recorded
            bipartite sets, in both the directed and the undirected branch.
 Round-trip equality of values is NOT decided.
@@ -31,7 +33,7 @@ PROP = "C10"
 def run(ctx):
     repo = ctx.repo
     res = Result(PROP)
-    res.rules = ["T-KEYS", "T-DEF", "T-ATTRS", "T-CAST", "T-SIBLING", "T-ROLE", "T-NPID"]
+    res.rules = ["T-KEYS", "T-DEF", "T-ATTRS", "T-CAST", "T-SIBLING", "T-ROLE", "T-NPID", "T-FLOW"]
     res.explanation = (
         "Narrow claim: finite tables (keys, enumerations, literal maps) are extracted from the writer and the reader of "
         "each dict format and compared; definite assignment of unconditionally-read keys; sibling comparison of the "
@@ -43,6 +45,7 @@ def run(ctx):
     check_siblings(repo, res)
     check_role(repo, res)
     check_npid(repo, res)
+    check_flow(repo, res)
     return res
 
 
@@ -761,3 +764,24 @@ def check_npid(repo, res):
                 if bad:
                     res.add(mk_finding(PROP, "T-NPID", fn, c, f"{fn.qualname}: `{unparse(bad[0], 40)}` handed to {c.func.attr}() was taken out of a NumPy array built from the labels; NumPy stores one element type, so a label list that mixes integers and strings comes back as strings (and Python ints as NumPy scalars) - the IDs of the converted network differ from the labels given", role=c.func.attr))
     res.floor("network-building calls in the converters", n, 25)
+
+
+def check_flow(repo, res):
+    from .common import dead_parameters
+
+    n = 0
+    for mn, mi in sorted(repo.modules.items()):
+        if not mn.startswith("xgi.convert."):
+            continue
+        for fn in mi.functions.values():
+            if fn.name.startswith("_"):
+                continue
+            body = [b for b in fn.node.body if not (isinstance(b, ast.Expr) and isinstance(b.value, ast.Constant))]
+            if all(isinstance(b, ast.Raise) for b in body):
+                continue
+            n += 1
+            dead = dead_parameters(fn.node)
+            res.inst("T-FLOW", f"{fn.fq}: every parameter influences the result ({len(fn.all_params)} parameters)", not dead)
+            for p in dead:
+                res.add(mk_finding(PROP, "T-FLOW", fn, fn.node, f"{fn.qualname}: the parameter `{p}` cannot influence what the converter builds or returns (it is only checked, or stored in a name nothing reads); that part of the input is silently dropped in the conversion", role=p))
+    res.floor("public converters checked for dead parameters", n, 25)
